@@ -134,6 +134,39 @@ theorem isingPairs_eq {α : Type} [DecidableEq α] (pairs : List (α × α)) :
   simp only [h, if_false]
   rfl
 
+theorem isingPairsSites_eq {α : Type} (sites : List α) (pairs : List (α × α)) :
+    isingPairsSites sites pairs = sites.map fieldTerm ++ pairs.map couplingTerm := by
+  unfold isingPairsSites singleSiteTerms nnTerms hamFactor
+  have h : ¬ ((-1 : Int) = 0) := by decide
+  simp only [h, if_false]
+  rfl
+
+theorem mem_gridCells (rows cols : Nat) (c : Cell) : c ∈ gridCells rows cols ↔ InGrid rows cols c := by
+  obtain ⟨a, b⟩ := c
+  simp only [gridCells, List.mem_flatMap, List.mem_range, List.mem_map, Prod.mk.injEq, InGrid]
+  constructor
+  · rintro ⟨i, hi, j, hj, rfl, rfl⟩; exact ⟨hi, hj⟩
+  · rintro ⟨hi, hj⟩; exact ⟨a, hi, b, hj, rfl, rfl⟩
+
+theorem gridCells_succ (rows cols : Nat) :
+    gridCells (rows + 1) cols = gridCells rows cols ++ (List.range cols).map fun j => (rows, j) := by
+  simp [gridCells, List.range_succ, List.flatMap_append]
+
+theorem gridCells_nodup (rows cols : Nat) : (gridCells rows cols).Nodup := by
+  induction rows with
+  | zero => simp [gridCells]
+  | succ r ih =>
+    rw [gridCells_succ, List.nodup_append]
+    refine ⟨ih, ?_, ?_⟩
+    · rw [List.Nodup, List.pairwise_map]
+      exact List.Pairwise.imp (fun hab h => hab (by simpa using h)) (List.nodup_range (n := cols))
+    · intro x hx y hy hxy
+      subst hxy
+      have h1 := (mem_gridCells r cols x).1 hx
+      simp only [List.mem_map, List.mem_range] at hy
+      obtain ⟨b, _, rfl⟩ := hy
+      exact Nat.lt_irrefl _ h1.1
+
 /-- every cell of a grid with at least two cells occurs in some neighbour pair -/
 theorem cell_in_some_pair (rows cols : Nat) (h : 2 ≤ rows * cols) (c : Cell)
     (hc : InGrid rows cols c) :
